@@ -549,7 +549,7 @@ func c19Simplifier(c *Ctx, r *Report) {
 			}
 			// a replacement: needs the fact hits == 0
 			okf := false
-			for _, f := range fg.FactsAt(fg.NodeOf(rs.Pos())) {
+			for _, f := range fg.FactsAtPos(rs.Pos()) {
 				be, isB := ast.Unparen(f.Cond).(*ast.BinaryExpr)
 				if !isB || f.Tag != nil {
 					continue
@@ -638,7 +638,7 @@ func c19Errors(c *Ctx, r *Report) {
 				if rs, isR := x.(*ast.ReturnStmt); isR && len(rs.Results) == 2 {
 					if fl, isL := ast.Unparen(rs.Results[0]).(*ast.FuncLit); isL {
 						lit = fl
-						for _, f := range fg.FactsAt(fg.NodeOf(rs.Pos())) {
+						for _, f := range fg.FactsAtPos(rs.Pos()) {
 							if be, isB := ast.Unparen(f.Cond).(*ast.BinaryExpr); isB && f.Tag == nil {
 								if identObj(sinfo, be.X) == errObj && exprStr(be.Y) == "nil" {
 									if (be.Op == token.NEQ && !f.Truth) || (be.Op == token.EQL && f.Truth) {
@@ -713,7 +713,7 @@ func errorReturnRule(c *Ctx, r *Report, rule string, fi *FuncInfo, info *types.I
 					}
 				}
 			} else if isVar {
-				for _, f := range fg.FactsAt(fg.NodeOf(rs.Pos())) {
+				for _, f := range fg.FactsAtPos(rs.Pos()) {
 					if be, isB := ast.Unparen(f.Cond).(*ast.BinaryExpr); isB && f.Tag == nil {
 						if identObj(info, be.X) == o && exprStr(be.Y) == "nil" {
 							if (be.Op == token.NEQ && f.Truth) || (be.Op == token.EQL && !f.Truth) {
